@@ -150,6 +150,8 @@ def gen_cmd(pkg, t, log):
     envdump = ""
     if t.get("envdump"):
         envdump = ' env | LC_ALL=C sort | grep -v "^_=" ;'
+    if t.get("envvars"):
+        envdump += " echo " + " ".join('"%s=[${%s-unset}]"' % (v, v) for v in t["envvars"]) + ";"
     if t.get("dir") is not None:
         body = 'mkdir -p "$OUT"; '
         for e in t["dir"]:
@@ -172,6 +174,8 @@ def gen_cmd(pkg, t, log):
                     body += 'chmod +x "$OUT/%s"; ' % path
     else:
         body = 'for o in $OUTS; do { echo "T %s %s ${o##*/}";%s %s; } > "$o"; done; ' % (lab, t["salt"], envdump, DUMP)
+    if t.get("quiet"):
+        body += ': %s; ' % t["quiet"]
     return pre + body + 'echo "E %s ok" >> %s' % (lab, log)
 
 
